@@ -24,6 +24,10 @@ pub fn int_of(lex: &str) -> Option<i128> {
         return None;
     }
     let v: i128 = lex.parse().ok()?;
+    if v == 0 && lex.starts_with('-') {
+        // serde_json reads "-0" as the float -0.0
+        return None;
+    }
     if lex.starts_with('-') {
         if v >= i64::MIN as i128 {
             Some(v)
